@@ -140,7 +140,7 @@ func (p pipeSc) scenario() *sched.Scenario {
 			}
 		}
 		finish := func(e *vsched.Execution) sched.Outcome {
-			if s != nil && !e.Deadlock {
+			if s != nil && !e.Deadlock && !e.Livelock {
 				o.w, o.r = s.Stats()
 			}
 			return p.check(o, e)
@@ -164,7 +164,7 @@ func (p pipeSc) check(o *pipeObs, e *vsched.Execution) sched.Outcome {
 	out := sched.Outcome{Key: fmt.Sprintf("read=%q stats=%d/%d seen=%v evts=%v", got, o.w, o.r, o.statsSeen, o.readEvts)}
 	// non-trivial: the reader took a step between two writer steps or a writer had to wait (yield)
 	out.NonTrivial = true
-	if e.Deadlock || len(e.Panics) > 0 {
+	if e.Deadlock || e.Livelock || len(e.Panics) > 0 {
 		return out // reported by the explorer as no-deadlock / no-goroutine-panic
 	}
 	total := 0
